@@ -17,7 +17,7 @@ class C09(vlib.Check):
     pid = 'C09'
     group = 'slice'
     per_case_timeout = 3
-    rule = ('split: all subjects of length <= 5 (quick; thorough 8) over {a, comma, NUL} x separators of length 0..3 (empty, self-overlapping '
+    rule = ('split: all subjects of length <= 6 (quick; thorough 8) over {a, comma, NUL} x separators of length 0..3 (empty, self-overlapping '
             '"aa", longer than the subject, with NUL for the ST::string form) x max_splits in {0,1,2,SIZE_MAX} x forms char / const char* / '
             'char8_t* / ST::string, case-sensitive; the same over {a,A,comma} with mixed-case separators in both case modes; high-byte '
             'separators against well-formed and malformed UTF-8 subjects (per-piece re-validation of the const char* form); split(char) with '
@@ -35,7 +35,7 @@ class C09(vlib.Check):
     def gen(self, rng, tier):
         thorough = tier == 'thorough'
         # ---- split, exhaustive small
-        maxlen = 8 if thorough else 5
+        maxlen = 8 if thorough else 6
         empties = 0
         for s in words(b'a,\x00', maxlen):
             h = hx(s)
